@@ -71,7 +71,9 @@ def alter(c, alt):
         k = consts[i]
         field = alt[2]
         try:
-            if field == "co_filename":
+            if field == "co_flags_unknown":
+                k2 = replace_code(k, co_flags=k.co_flags | 0x800)
+            elif field == "co_filename":
                 k2 = replace_code(k, co_filename=k.co_filename + ".other")
             elif field == "co_name":
                 k2 = replace_code(k, co_name=k.co_name + "_zz")
@@ -187,8 +189,10 @@ def alterations_for(c, rng, known_bits, n_masks, n_combo):
         alts.append(("varname", j, c.co_varnames[np_ - 1]))
     # a header field of a NESTED code object altered (the parent's own header is untouched)
     if any(hasattr(k, "co_code") for k in c.co_consts):
-        for field in ("co_filename", "co_name", "co_firstlineno"):
+        for field in ("co_filename", "co_name", "co_firstlineno", "co_flags_unknown"):
             alts.append(("nested", rng.randint(0, 20), field))
+        # ... and on the LAST nested code constant (nothing after it in the table)
+        alts.append(("nested", -1, "co_flags_unknown"))
     # both function flags cleared at once (a single-bit flip never reaches the non-function branch with arguments)
     if (c.co_flags & 3) == 3:
         alts.append(("flag-mask", 3))
@@ -388,12 +392,18 @@ def flag_word_pass(seed, tier, spec):
             return ("raises", out[1])
         names = out[1]
         back = sched._outcome(lambda: _flags_data.from_flags_data(set(names)))
+        # hostile caller: the returned set is the caller's to edit; a later conversion must not see the edit
+        try:
+            names.add("NESTED")
+            names.add("zz_scribbled")
+        except AttributeError:
+            pass
         if back[0] != "ok":
             return ("back-raises", back[1])
         return ("ok", back[1])
 
     # cold: unknown-bit words first (before from_flags_data has populated the IntFlag pseudo-member cache)
-    mixed = []
+    mixed = [0, 0]  # the empty word (twice: the second conversion follows a scribble on the first result)
     if spec.get("mixed"):
         for b in unknown:
             mixed.append(1 << b)
